@@ -126,6 +126,7 @@ impl<'a> Parser<'a> {
         path: &Path,
         span: Span,
     ) -> Result<(ast::AttrVec, ThinVec<ptr::P<ast::Item>>, Span), ParserError> {
+        psess.start_file();
         let result = catch_unwind(AssertUnwindSafe(|| {
             #[cfg(rustfmt_verif)]
             crate::verif_hooks::fault_point("parse_file_as_module", &path.display().to_string());
@@ -172,6 +173,7 @@ impl<'a> Parser<'a> {
     }
 
     fn parse_crate_inner(input: Input, psess: &'a ParseSess) -> Result<ast::Crate, ParserError> {
+        psess.start_file();
         ParserBuilder::default()
             .input(input)
             .psess(psess)
